@@ -6,6 +6,7 @@ import GqlVerif.Proofs.C04RustExamples
 import GqlVerif.Proofs.C04RustCoercionWitness
 import GqlVerif.Proofs.C04DefaultsLit
 import GqlVerif.Proofs.C04DefaultsWitness
+import GqlVerif.Proofs.C04DefaultsRustWitness
 open GqlVerif.C04
 #print axioms GqlVerif.C01.ser_fields_iff
 #print axioms variables_fields_are_declared
@@ -87,3 +88,32 @@ open GqlVerif.C04
 #print axioms GqlVerif.C04D.nx_oneOf
 #print axioms GqlVerif.C04D.nx_unknown_field_dropped
 #print axioms GqlVerif.C04D.null_default_panics
+-- default literals under normalization rust (Proofs/C04DefaultsRust*.lean, P39)
+#print axioms GqlVerif.C04DR.default_typechecks_rust
+#print axioms GqlVerif.C04DR.default_value_correct_rust
+#print axioms GqlVerif.C04DR.default_typechecks_rust'
+#print axioms GqlVerif.C04DR.default_value_correct_rust'
+#print axioms GqlVerif.C04DR.default_good_rust
+#print axioms GqlVerif.C04DR.valueToLiteral_rename
+#print axioms GqlVerif.C04DR.valueToLiteral_fail_alike
+#print axioms GqlVerif.C04DR.evalLit_rename
+#print axioms GqlVerif.C04DR.resolveTy_ren
+#print axioms GqlVerif.C04DR.hasCompileError_rel
+#print axioms GqlVerif.C04DR.enumOk_of_validC
+#print axioms GqlVerif.C04DR.name_facts
+#print axioms GqlVerif.C04DR.enum_facts
+#print axioms GqlVerif.C04DR.variableType_tyRen
+#print axioms GqlVerif.C04DR.dr_side
+#print axioms GqlVerif.C04DR.dr_hyps
+#print axioms GqlVerif.C04DR.dr_valid
+#print axioms GqlVerif.C04DR.dr_bodies
+#print axioms GqlVerif.C04DR.dr_typechecks
+#print axioms GqlVerif.C04DR.dr_value_correct
+#print axioms GqlVerif.C04DR.dr_run
+#print axioms GqlVerif.C04DR.dr_expected
+#print axioms GqlVerif.C04DR.dr_raw_names_fail
+#print axioms GqlVerif.C04DR.wx_enum_idents
+#print axioms GqlVerif.C04DR.wx_hyps
+#print axioms GqlVerif.C04DR.wx_names
+#print axioms GqlVerif.C04DR.wn_hyps
+#print axioms GqlVerif.C04DR.nx_keyword_variant
